@@ -112,3 +112,141 @@ def explore(prog, ext_menu=(), max_depth=14, max_paths=300, rng=None, allow_canc
         finally:
             s.close()
     return out
+
+
+def run_to_end(s, max_rounds=12):
+    """Deterministic continuation: let every body finish, then fire the next non-timeout timer, repeat."""
+    for _ in range(max_rounds):
+        s.drain()
+        if s.outcome is not None:
+            return
+        acts = [a for a in s.enabled(allow_cancel=False) if a[0] == "advance" and a[2] != "timeout"]
+        if not acts:
+            return
+        s.apply(acts[0])
+
+
+def replay_then_resume(prog, sched, ext_menu=()):
+    """Execute `sched` on a fresh system, serialise the context through JSON, resume it with Context.from_dict on the
+    same workflow object and drive the resumed run to its end.  Returns the whole trace (runs 1 and 2)."""
+    import json as _json
+    s = en.EngineSystem(prog)
+    try:
+        s.start("s0")
+        for c in sched:
+            s.apply(c)
+        try:
+            snap = s.snapshot()
+            s.log({"e": "snapshot", "ok": True, "is_running": bool(snap.get("is_running"))})
+        except Exception as ex:  # noqa: BLE001
+            s.log({"e": "snapshot", "ok": False, "err": type(ex).__name__ + ":" + str(ex)[:120], "is_running": False})
+            return s.trace
+        try:
+            s.resume_from(snap)
+            s.log({"e": "resumed", "ok": True})
+        except Exception as ex:  # noqa: BLE001
+            s.log({"e": "resumed", "ok": False, "err": type(ex).__name__ + ":" + str(ex)[:120]})
+            return s.trace
+        run_to_end(s)
+        s.log({"e": "resume_end", "outcome": (s.outcome or {"kind": "live"})["kind"],
+               "detail": (s.outcome or {"detail": ""})["detail"]})
+        return s.trace
+    finally:
+        s.close()
+
+
+def _summary(s):
+    """What C12/C13 compare: outcome, state-store contents, completed step inputs."""
+    store = s.store_dict()
+    data = store.get("state_data", store) if isinstance(store, dict) else {}
+    inner = data.get("_data", data) if isinstance(data, dict) else {}
+    keys = sorted(k for k in (inner or {}) if str(k).startswith("k_"))
+    done = sorted({"%s/%s" % (r["step"], r["uid"]) for r in s.trace
+                   if r["e"] == "step_end" and not r["how"].startswith("raise") and r["how"] != "cancelled"})
+    return {"kind": (s.outcome or {"kind": "live"})["kind"], "detail": (s.outcome or {"detail": ""})["detail"],
+            "store": keys, "completed": done}
+
+
+def snapshot_cases(prog, sched, ext_menu=()):
+    """For every prefix of `sched`: (reference) continue uninterrupted to the end; (resumed) serialise the context
+    through JSON at that point, resume it in a fresh workflow object and continue to the end.  One record per prefix."""
+    import json as _json
+    from workflows.context.context_types import SerializedContext
+    from workflows.context.serializers import JsonSerializer
+    from workflows.runtime.types.internal_state import BrokerState
+    cases = []
+    for k in range(0, len(sched) + 1):
+        # reference
+        s = en.EngineSystem(prog, observe_c11=False)
+        try:
+            s.start("s0")
+            for c in sched[:k]:
+                s.apply(c)
+            if s.outcome is not None:
+                s.close()
+                break
+            inprog = [{"step": key[0], "uid": key[1], "retry": key[2]} for key in s.rig.open_gates()]
+            pending_retry = any(tk.__class__.__name__ == "TickAddEvent" for r_ in en._RUNNERS.values()
+                                for (_a, _s, tk) in r_.scheduled_wakeups)
+            n1 = {}
+            f1 = {}
+            for r in s.trace:
+                if r["e"] == "step_start":
+                    n1["%s/%s" % (r["step"], r["uid"])] = n1.get("%s/%s" % (r["step"], r["uid"]), 0) + 1
+                if r["e"] == "step_end" and r["how"].startswith("raise"):
+                    f1["%s/%s" % (r["step"], r["uid"])] = f1.get("%s/%s" % (r["step"], r["uid"]), 0) + 1
+            try:
+                snap = _json.loads(_json.dumps(s.handler.ctx.to_dict()))
+                snap_err = ""
+            except Exception as ex:  # noqa: BLE001
+                snap, snap_err = None, type(ex).__name__ + ":" + str(ex)[:100]
+            run_to_end(s)
+            ref = _summary(s)
+        finally:
+            s.close()
+        rec = {"e": "case", "k": k, "ref": ref, "inprog": inprog, "snap_err": snap_err, "run": 1, "seq": k, "t": 0,
+               "pending_retry": bool(pending_retry)}
+        if snap is None:
+            rec.update(res={"kind": "snapshot_failed", "detail": "", "store": [], "completed": []}, stable=True, post=[],
+                       resume_err="", fails=[])
+            cases.append(rec)
+            continue
+        # resumed, in a fresh workflow object
+        s2 = en.EngineSystem(prog, observe_c11=False)
+        try:
+            ser = JsonSerializer()
+            # stability of the serialised form: Deser(d1) vs Deser(Ser(Deser(d1)))
+            try:
+                bs1 = BrokerState.from_serialized(SerializedContext.from_dict_auto(snap), s2.wf, ser)
+                d2 = _json.loads(_json.dumps(bs1.to_serialized(ser).model_dump(mode="python")))
+                bs2 = BrokerState.from_serialized(SerializedContext.from_dict_auto(d2), s2.wf, ser)
+                rec["stable"] = en.p_state(bs1) == en.p_state(bs2)
+            except Exception as ex:  # noqa: BLE001
+                rec["stable"] = False
+                rec["snap_err"] = "stability:" + type(ex).__name__
+            try:
+                s2.run_no = 1
+                s2.resume_from(snap)
+                rec["resume_err"] = ""
+            except Exception as ex:  # noqa: BLE001
+                rec["resume_err"] = type(ex).__name__ + ":" + str(ex)[:100]
+            if not rec["resume_err"]:
+                # replay the remaining external inputs of the schedule, then run to the end
+                for c in sched[k:]:
+                    if c[0] == "send":
+                        s2.apply(c)
+                run_to_end(s2)
+            rec["res"] = _summary(s2)
+            post = {}
+            fails = dict(f1)
+            for r in s2.trace:
+                if r["e"] == "step_start":
+                    post.setdefault("%s/%s" % (r["step"], r["uid"]), []).append(r["retry"])
+                if r["e"] == "step_end" and r["how"].startswith("raise"):
+                    fails["%s/%s" % (r["step"], r["uid"])] = fails.get("%s/%s" % (r["step"], r["uid"]), 0) + 1
+            rec["post"] = [{"key": key, "first_retry": v[0]} for key, v in sorted(post.items())]
+            rec["fails"] = [{"key": key, "n": v, "step": key.split("/")[0]} for key, v in sorted(fails.items())]
+        finally:
+            s2.close()
+        cases.append(rec)
+    return cases
